@@ -27,6 +27,7 @@ GEN_OBLIGATION = {
     'HashImpl': 'Proofs/GenHashEq.vo', 'EffectsImpl': 'Proofs/EffectsAtomic.vo',
     'RoundingImpl': 'Proofs/RoundingImplSpec.vo', 'AllocImpl': 'Proofs/GenAllocEq.vo',
     'RatesImpl': 'Proofs/GenRatesEq.vo', 'FractionImpl': 'Proofs/GenFractionEq.vo',
+    'TermOpsImpl': 'Proofs/GenTermOpsEq.vo',
 }
 
 
